@@ -36,6 +36,15 @@ static inline double vf_now(void)
     return (double) ts.tv_sec + 1e-9 * (double) ts.tv_nsec;
 }
 
+/* Fills the stack region the next library call will use with a fixed pattern, so that a library that reads an uninitialised local
+ * fails the same way on every run (and on the replay) instead of depending on what ran before. */
+static __attribute__((noinline)) void vf_stack_paint(void)
+{
+    volatile uint8_t pad[6144];
+    memset((void *) pad, 0xEE, sizeof pad);
+    __asm__ volatile("" : : "r"(pad) : "memory");
+}
+
 static inline void *vf_xmalloc(size_t n)
 {
     void *p = malloc(n ? n : 1);
